@@ -295,6 +295,9 @@ func dump(d *Defs, rv reflect.Value, t *Ty) string {
 	case 'y', 'h', 'i', 'l', 'E':
 		return "n" + strconv.FormatInt(rv.Int(), 10) + ";"
 	case 'd':
+		if math.IsNaN(rv.Float()) {
+			return "g7ff8000000000001" // dumps compare NaNs as "is NaN": the JSON protocol carries no payload
+		}
 		return fmt.Sprintf("g%016x", math.Float64bits(rv.Float()))
 	case 's':
 		return "q" + hex.EncodeToString([]byte(rv.String())) + ";"
